@@ -40,7 +40,8 @@ CHECKS = {
              "dataset, all N(0), all t; C03_oracle_sound: the interval oracle cumEncl encloses the exact integral for every input; "
              "real cumulative_decays of both classes compared with that oracle, keys = radioactive closure, atom balance "
              "recomputed from real outputs; the same theorems for every dataset accepted by wellFormedB (AllDatasets.*) with "
-             "synthetic datasets compared the same way.",
+             "synthetic datasets compared the same way. High-precision values below 1e-290 x the ancestors' atoms lose accuracy "
+             "(open known finding F6', same root cause as F6 of C02) and are reported as KNOWN-FINDING.",
         ref="§4 C03", technique=PROOF_DECAY, note=NOTE + "Rounding bounds per input, not proved."),
     "C04": dict(
         text="Every statement of the property is a kernel-evaluated decision (decide +kernel, no axioms beyond the standard three) "
